@@ -87,6 +87,38 @@ spec_mutant("Kanal: blocked sender pushed to the front (PerProducerFifo)", "MC_K
 spec_mutant("Kanal: timeout cancel does not remove the entry (NothingLeftBehind)", "MC_Kanal", "MC_Kanal_timed.cfg", "Kanal.tla",
             "     [c |-> [wl |-> Remove(C.wl, p)], s |-> <<>>,\n      l |-> IF L[p].ctx", "     [c |-> <<>>, s |-> <<>>,\n      l |-> IF L[p].ctx",
             r"returned while still listed|is violated")
+# ---- liveness (FairSpec): without fairness of the clock a timed waiter spins for ever -> Completes must be refuted
+spec_mutant("Kanal: no fairness of Tick (Completes)", "MC_Kanal", "MC_Kanal_live_timed.cfg", "Kanal.tla",
+            "Fairness == WF_vars(Tick) /\\ \\A p \\in Procs : WF_vars(Step(p))", "Fairness == \\A p \\in Procs : WF_vars(Step(p))",
+            r"Temporal propert(y|ies) .* violated|Temporal properties were violated")
+# ---- closed is final: close() forgets to clear the buffer -> ClosedShape (ghost G.closed)
+spec_mutant("Kanal: close does not clear the buffer (ClosedShape)", "MC_Kanal", "MC_Kanal_closeclone.cfg", "Kanal.tla",
+            'ELSE TermStart(p, [sc |-> 0, rc |-> 0], "ret", TRUE)', 'ELSE TermStart(p, [sc |-> 0, rc |-> 0], "ret", FALSE)',
+            r"Invariant (ClosedShape|NoLeak) is violated")
+# ---- L2 |= L1 link: a wrong L2 (refill pushes to the front) must produce behaviours the ideal channel rejects
+def l2l1_mutant():
+    global ok_all
+    import l2l1
+    fresh_spec()
+    pth = os.path.join(SP, "Kanal.tla")
+    t = open(pth).read()
+    old = '[] ct = "refill" -> [c |-> [queue |-> Append(C.queue, L[p].cw)]'
+    assert old in t
+    open(pth, "w").write(t.replace(old, '[] ct = "refill" -> [c |-> [queue |-> <<L[p].cw>> \\o C.queue]'))
+    saved = vlib.SPEC
+    vlib.SPEC = SP
+    try:
+        import collections
+        try:
+            l2l1.run_stage(vlib.workdir("selftest_l2l1"), "thorough", 3, collections.defaultdict(int), [])
+            hit = False
+        except vlib.ToolError as e:
+            hit = "rejected by" in str(e)
+    finally:
+        vlib.SPEC = saved
+    print("%-70s %s" % ("L2 |= L1: refill pushes to the front -> a simulated L2 behaviour is rejected", "refuted as expected" if hit else "NOT REFUTED  <-- self-test failure"))
+    ok_all &= hit
+l2l1_mutant()
 # ---- L1 mutants
 spec_mutant("KanalAtomic: admission <= (ShapeOK)", "MC_KanalAtomic", "MC_KanalAtomic_2p.cfg", "KanalAtomic.tla",
             "ELSE IF Len(s.ch.buf) < s.ch.cap THEN [k |-> \"buf\"", "ELSE IF Len(s.ch.buf) <= s.ch.cap THEN [k |-> \"buf\"", r"Invariant ShapeOK is violated")
